@@ -79,4 +79,16 @@ def gen(tier, rng, boost=1):
         sub = mod.gen("quick", _r.Random(rng.randrange(10 ** 9)), 1)
         rng.shuffle(sub)
         ops += sub[: take if q else take * 6]
+    # stream input that ENDS inside a multi-byte scalar / length field which straddles the 256-byte cache boundary of the binary stream
+    # reader (the refill delivers only part of the block): must be a parsing error, never a block made of stale buffer bytes
+    from . import mpgen as M
+    scal = [bytes([0xCD, 0x12, 0x34]), bytes([0xCE, 1, 2, 3, 4]), bytes([0xCF, 1, 2, 3, 4, 5, 6, 7, 8]), bytes([0xCA, 0x3F, 0x80, 0, 0]),
+            bytes([0xCB, 0x3F, 0xF0, 0, 0, 0, 0, 0, 0]), bytes([0xDA, 0, 3, 0x61, 0x62, 0x63]), bytes([0xD7, 0xFF, 0, 0, 0, 1, 0, 0, 0, 2]),
+            bytes([0xDC, 0, 2, 1, 2]), bytes([0xD3, 0xFF, 0xFF, 0xFF, 0xFF, 0, 0, 0, 1])]
+    for d in scal:
+        for pre in range(256 - len(d), 257):
+            for cut in range(1, len(d)):
+                for T in ("i64", "u64", "f64", "str", "ts", "arr"):
+                    ops.append(M.read_op("stream", "throw", "skip", T, pre, d[:cut]))
+                ops.append(f"mp.skip stream {pre} {M.hx(d[:cut])}")
     return ops
